@@ -180,8 +180,8 @@ Print Assumptions C15_like_equals_expanded.
    value, the last FILL (with its transformation), LAT, TRCL and U groups — and
    that card, as text, is parsed to the same cell as the LIKE card.  ([canon_card]
    is undefined when the card cannot be written, e.g. MAT on a void base without
-   RHO, or an unread keyword with a numeric value such as VOL=3: gap named in
-   notes/C15.md.) *)
+   RHO, or a stray number after a keyword that is read ("U=3 7"); unread
+   keywords and their values (VOL=3) are dropped: see notes/C15.md.) *)
 Theorem C15_expansion_card : forall (T : Type) (SC : Scalar T) (e : env (T:=T)) (rank : nat)
     (lat : option (list (Z * Z))) (x : card) (w : wcard) (c : cell (T:=T)),
   canon_card SC e x = Ok w -> worker SC e rank lat x = Ok c ->
